@@ -16,6 +16,7 @@ ops (all run bits.bips.bip143.witness_message in the worker):
 import hashlib
 from common import case, case_to_json, coq_bytes, coq_result, short
 import c11_seq
+import c11_like
 
 ID = "C11"
 MAKE_TARGETS = ["Props/C11.v", "GenProps/Bip143Gen.v"]
@@ -361,6 +362,8 @@ def gen_cases(rng, tier):
                 _both(out, "related-calls/%s" % variant, [ver, list(ii), list(oo), lt, idx, amt, sc, flag])
     # ---- call sequences on the SAME txins/txouts list objects edited in place between the calls ----
     out += c11_seq.gen(rng, tier, rand_tx, _amount, _script, case)
+    # ---- content that looks like structure: scripts starting with a length prefix / push opcode for their own rest ----
+    out += c11_like.gen(rng, tier, rand_tx, _amount, _both, case, STD_FLAGS)
     # ---- SINGLE boundary: i = n_out - 1, n_out, n_out + 1 ----
     for n_out in range(1, 8):
         for idx in (n_out - 1, n_out, n_out + 1):
